@@ -583,4 +583,83 @@ def equilibriumQuotients2d (s : EqSystem) (rows : List (List α)) : Except Strin
 
 end Numeric
 
+/-! ## Decidable certificate for the reducer hypothesis (rational systems)
+
+The rref theorems assume `RowEquiv` (Proofs/EqSys.lean) between what chempy hands to the external reducer and what
+comes back.  For a rational augmented system — the conservation block `(B | B·c₀)` — that hypothesis can be CHECKED by
+the model itself: given weight matrices `P` (reduced rows from the original ones) and `L` (back), `rowEquivCert`
+verifies `(A'|b') = P·(A|b)` and `(A|b) = L·(A'|b')` row by row.  `rowEquivCert_sound` (Proofs) turns `= true` into
+`RowEquiv`; the driver evaluates it on the real reducer output of every generated `rref_preserv` case. -/
+
+/-- rational dot product `Σⱼ rowⱼ·vⱼ` -/
+def dotQ (row v : List Rat) : Rat := (List.zipWith (· * ·) row v).sum
+
+/-- the linear combination `Σᵢ wᵢ • Aᵢ` of rows of width `n` -/
+def lincombQ : List Rat → List (List Rat) → Nat → List Rat
+  | w :: ws, r :: rs, n => List.zipWith (· + ·) (r.map (w * ·)) (lincombQ ws rs n)
+  | _, _, n => List.replicate n 0
+
+/-- every `(row | β)` of `(A' | b')` is the combination of `(A | b)` with the weights in the matching row of `P` -/
+def combosOk (P : List (List Rat)) (A : List (List Rat)) (b : List Rat) (n : Nat) :
+    List (List Rat) → List Rat → Bool
+  | row :: rows, β :: βs =>
+    match P with
+    | w :: ws => (row == lincombQ w A n && β == dotQ w b) && combosOk ws A b n rows βs
+    | [] => false
+  | _, _ => true
+
+/-- the certificate: shapes, `(A'|b') = P·(A|b)` and `(A|b) = L·(A'|b')` -/
+def rowEquivCert (n : Nat) (P L A : List (List Rat)) (b : List Rat) (A' : List (List Rat)) (b' : List Rat) : Bool :=
+  A.length == b.length && A'.length == b'.length && A.all (fun r => r.length == n) && A'.all (fun r => r.length == n)
+    && combosOk P A b n A' b' && combosOk L A' b' n A b
+
+/-- the conservation system `(B | B·c₀)` that `linear_exprs(…, rref=True)` hands to the reducer, over ℚ -/
+def preservSystemQ (s : EqSystem) (c0 : List Rat) : List (List Rat) × List Rat :=
+  let B := (compositionBalanceVectors s).1
+  (intMat B, B.map fun row => dotQ (intRow row) c0)
+
+/-- certificate check for the conservation block of a system: is the reducer output `red` row-equivalent to `(B | B·c₀)`? -/
+def preservCert (s : EqSystem) (c0 : List Rat) (P L : List (List Rat)) (red : Reduced Rat) : Bool :=
+  rowEquivCert s.ns P L (preservSystemQ s c0).1 (preservSystemQ s c0).2 red.rA red.rb
+
+/-! ### The same for the equilibrium block, in log coordinates
+
+`ln K` is irrational, but for rational constants every `ln K_i` (and every entry of the reduced column) is a ℚ-combination
+of `ln p` over finitely many primes: `ln K_i = Σ_k E_ik · ln p_k`.  The certificate works on the rational coordinate
+matrices `E` (original) and `E'` (reduced): the SAME weights must combine the stoichiometry rows and the coordinate rows. -/
+
+/-- rows of `(A' | E')` from rows of `(A | E)` with the weights in `P` -/
+def combosOkE (P A E : List (List Rat)) (n m : Nat) : List (List Rat) → List (List Rat) → Bool
+  | row :: rows, e :: es =>
+    match P with
+    | w :: ws => (row == lincombQ w A n && e == lincombQ w E m) && combosOkE ws A E n m rows es
+    | [] => false
+  | _, _ => true
+
+/-- certificate for the equilibrium block: shapes, `(A'|E') = P·(A|E)`, `(A|E) = L·(A'|E')` -/
+def equilCert (n m : Nat) (P L A E A' E' : List (List Rat)) : Bool :=
+  A.length == E.length && A'.length == E'.length && A.all (fun r => r.length == n) && A'.all (fun r => r.length == n)
+    && E.all (fun r => r.length == m) && E'.all (fun r => r.length == m)
+    && combosOkE P A E n m A' E' && combosOkE L A' E' n m A E
+
+
+/-- certificate check for the equilibrium block of a homogeneous system (rows = net stoichiometry) -/
+def equilCertSys (s : EqSystem) (m : Nat) (P L E A' E' : List (List Rat)) : Bool :=
+  equilCert s.ns m P L (intMat (netStoichs s)) E A' E'
+
+/-! ### The constants as power products of integer bases (`ln K_i = Σ_k E_ik · ln p_k` certified) -/
+
+/-- the rational bases `p₁, p₂, …` as numbers -/
+def basesQ (ps : List Nat) : List Rat := ps.map fun (p : Nat) => (p : Rat)
+
+/-- certificate that the constants are the power products `K_i = ∏_k p_k ^ E_ik` of positive integer bases -/
+def ksCert (ps : List Nat) (E : List (List Int)) (ks : List Rat) : Bool :=
+  ps.all (fun p => decide (0 < p)) && ks == E.map (prodPowRow (basesQ ps))
+
+
+/-- the full model-side certificate for a `rref_equil` call of a homogeneous system: the constants are the stated
+    power products AND the reduced rows / coordinates are row-equivalent to the original ones -/
+def equilCertFull (s : EqSystem) (ps : List Nat) (E : List (List Int)) (ks : List Rat) (P L A' E' : List (List Rat)) : Bool :=
+  ksCert ps E ks && equilCertSys s ps.length P L (intMat E) A' E'
+
 end ChemModel.EqSys
